@@ -686,28 +686,6 @@ theorem run_cls (body : Body) (asPos root : Bool) (c : String) (init : Sig) (m0 
   exact ⟨m, md, a1, a2, hm, hmdmem, hmdname, bind_of_fill_pyBind asPos init g.top vals a1 hd hf hb1,
     bind_of_fill_pyBind asPos md.sig g.sub sub a2 (hdm md hmdmem) hfs hb2, rfl, rfl⟩
 
-/-- at the root a method called `config` makes `parse_args` die, so the name hypothesis is free there -/
-theorem method_not_config_of_root (asPos : Bool) (c : String) (init : Sig) (m0 : Method) (ms : List Method)
-    (g : Given) (cfg : Cfg) (hp : parseComp asPos true (.cls c init (m0 :: ms)) g = .ok cfg) :
-    g.method ≠ some "config" := by
-  intro hm
-  simp only [parseComp, hm] at hp
-  split at hp
-  · cases hp
-  split at hp
-  · cases hp
-  split at hp
-  · cases hp
-  split at hp
-  · cases hp
-  split at hp
-  · cases hp
-  split at hp
-  · rename_i hcr
-    cases hp
-  · rename_i hcr
-    simp at hcr
-
 /-! ### dicts of components: the chain of `subcommand` keys leads `auto_cli` to the selected component -/
 
 /-- no key is empty or a proper prefix of another key (`dict_to_namespace` of a nested dict) -/
@@ -954,8 +932,6 @@ theorem dispatch (body : Body) (asPos : Bool) (comps : Comps) (path : Key) (g : 
       ∧ autoCliTree body asPos comps path g = runComponent body comp c := by
   have hp0 := hp
   unfold parseTree at hp
-  split at hp
-  · cases hp
   split at hp
   · cases hp
   split at hp
